@@ -132,7 +132,7 @@ def observe_raw(g, ex, entry, text, pos, timeout=0.25):
         try:
             st, res, p = with_timeout(lambda: drive(g, func, text, pos), timeout)
         except Timeout:         # a loaded machine, or a genuinely diverging parse: try once more, generously
-            st, res, p = with_timeout(lambda: drive(g, func, text, pos), 8 * timeout)
+            st, res, p = with_timeout(lambda: drive(g, func, text, pos), 3 * timeout)
     except Timeout:
         return 'timeout'
     except (MemoryError, RecursionError):
@@ -161,7 +161,7 @@ def observe_parse(g, ex, entry, text, pos, full, timeout=0.25, module_level=Fals
         try:
             v = with_timeout(lambda: f(text, pos, full), timeout)
         except Timeout:
-            v = with_timeout(lambda: f(text, pos, full), 8 * timeout)
+            v = with_timeout(lambda: f(text, pos, full), 3 * timeout)
         return f'(return {canon(v, ex["classes"], raw=False)})'
     except Timeout:
         return 'timeout'
